@@ -32,6 +32,36 @@ func makeVarsAndDrop(n int, finalized *int64) *gomini.State {
 	return st // the placeholders are now referenced by nothing but (possibly) the state
 }
 
+// makeLineageTree builds a TREE of states: from a parent with k0 variables, `sib` sibling states are derived (each by its own
+// NewVar / Set on the same parent, as the branches of a disjunction do), some of them extended further. Every placeholder gets
+// a finalizer and is dropped by the caller; all the states stay alive.
+//
+//go:noinline
+func makeLineageTree(k0, sib, depth int, finalized *int64) []*gomini.State {
+	parent := gomini.NewState()
+	nv := func(st *gomini.State) *gomini.State {
+		var p *GT
+		st, p = gomini.NewVar[*GT](st)
+		runtime.SetFinalizer(p, func(*GT) { atomic.AddInt64(finalized, 1) })
+		return st
+	}
+	for i := 0; i < k0; i++ {
+		parent = nv(parent)
+	}
+	out := []*gomini.State{parent}
+	for j := 0; j < sib; j++ {
+		st := nv(parent)
+		for d := 0; d < (j*7+depth)%(depth+1); d++ {
+			st = nv(st)
+		}
+		out = append(out, st)
+		if j%3 == 2 { // a cousin: a second child of a sibling
+			out = append(out, nv(out[len(out)-1]), nv(out[len(out)-1]))
+		}
+	}
+	return out
+}
+
 func gcWrap(g gomini.Goal) gomini.Goal {
 	return func(ctx context.Context, s *gomini.State, ss gomini.Stream) {
 		runtime.GC()
@@ -49,7 +79,7 @@ func nodeList(xs []string) *concato.Node {
 
 func runC05(cfg *Config) *Report {
 	rep := newReport()
-	rep.Rule = "per case: k variables created with NewVar and dropped by the caller, GC forced; finalizer count while the state is alive; CastVar of m freshly allocated constants of the same type; ConcatO split searches on lists of 20..120 elements under GCPercent in {1,10,100,off} with and without a forced GC at every goal boundary; non-trivial = GC actually ran between creation and use (NumGC advanced); distinct by (k, m, list length, GC setting)"
+	rep.Rule = "per case: k variables created with NewVar and dropped by the caller, GC forced; finalizer count while the state is alive; the same for a TREE of states (2..7 siblings derived from one parent with 1..40 variables, children and cousins), all kept alive; CastVar of m freshly allocated constants of the same type; ConcatO split searches on lists of 20..120 elements under GCPercent in {1,10,100,off} with and without a forced GC at every goal boundary; non-trivial = GC actually ran between creation and use (NumGC advanced); distinct by (k, m, list length, GC setting)"
 	r := newRand(cfg.Seed)
 	defer debug.SetGCPercent(debug.SetGCPercent(100))
 	for i := 0; i < cfg.N; i++ {
@@ -93,6 +123,18 @@ func runC05(cfg *Config) *Report {
 			rep.violate(i, "fresh-constant-classified-as-variable", desc, fmt.Sprintf("%d of %d freshly allocated constants are classified as variables by CastVar of the earlier state", mis, m))
 		}
 		runtime.KeepAlive(st)
+		// probe 1b: the same for a tree of lineages (sibling states derived from one parent, kept alive together)
+		var finTree int64
+		k0, sib, dep := 1+r.Intn(40), 2+r.Intn(6), r.Intn(4)
+		tree := makeLineageTree(k0, sib, dep, &finTree)
+		runtime.GC()
+		runtime.GC()
+		time.Sleep(2 * time.Millisecond)
+		if f := atomic.LoadInt64(&finTree); f > 0 {
+			rep.violate(i, "placeholder-collected-while-state-alive", desc, fmt.Sprintf("lineage tree (parent with %d variables, %d sibling states each creating variables, depth %d): %d placeholders were garbage collected although every state of the tree is still alive", k0, sib, dep, f))
+		}
+		obs += fmt.Sprintf(" finalized-in-lineage-tree=%d", atomic.LoadInt64(&finTree))
+		runtime.KeepAlive(tree)
 		// probe 3: answers independent of GC timing
 		xs := make([]string, ln)
 		for j := range xs {
